@@ -197,6 +197,13 @@ def _tc_histories(sp, tcm, check_pus_crc, c, app, want, tc):
         o_ch.apid = (c["apid"] + 1) % 2048
         d_new = tcm.PusTc.unpack(w_apid)
         true(devs, f"hist.eq_right_after_setter.{how}", bool(o_ch == d_new) and bool(d_new == o_ch), "changed telecommand != telecommand decoded from the octets of its new values")
+    # composed from a primary header of the other packet type: refused, and composing from the right header afterwards gives the telecommand
+    from ..core import expect_raise as _er
+
+    tm_hdr = sp.SpacePacketHeader(packet_type=sp.PacketType.TM, apid=c["apid"], seq_count=c["seq"], data_len=5 + len(app) + 2 - 1, sec_header_flag=True)
+    _er(devs, "hist.composed_from_tm_header", lambda: tcm.PusTc.from_composite_fields(tm_hdr, tcm.PusTcDataFieldHeader(c["service"], c["subservice"], c["source_id"], c["ack"]), app), accept=(ValueError,))
+    tc_hdr = sp.SpacePacketHeader(packet_type=sp.PacketType.TC, apid=c["apid"], seq_count=c["seq"], data_len=5 + len(app) + 2 - 1, sec_header_flag=True)
+    eq(devs, "hist.composed_after_refused_composition", bytes(tcm.PusTc.from_composite_fields(tc_hdr, tcm.PusTcDataFieldHeader(c["service"], c["subservice"], c["source_id"], c["ack"]), app).pack()), want)
     # printing is pure: str() / repr() of a never-packed telecommand change nothing about what is packed after a later field change
     for printed in (False, True):
         o = build_tc(tcm, c, app)
